@@ -27,7 +27,7 @@ PROPERTY = 'C19'
 # the two overrides exist for the mutant self-test only, so that it never rewrites the real evidence
 EVIDENCE = os.environ.get('VERIF_EVIDENCE') or os.path.join(ROOT, 'evidence', 'C19.json')
 REPLAYS = os.environ.get('VERIF_REPLAYS') or os.path.join(ROOT, 'replays')
-KNOWN = os.path.join(ROOT, 'known_findings.json')
+KNOWN = os.environ.get('VERIF_KNOWN') or os.path.join(ROOT, 'known_findings.json')  # override: self-test only
 
 
 def out(msg: str) -> None:
@@ -334,8 +334,12 @@ def cmd_campaign(tier: str, verif_seed: int, workers: int) -> int:
             else:
                 rc = 1
 
+    printed: set = set()
     for hit, bad in known_hits:
-        out(f'KNOWN-FINDING: property={PROPERTY} {hit.get("what", hit)}')
+        line = f'KNOWN-FINDING: property={PROPERTY} {hit.get("what", hit)}'
+        if line not in printed:
+            printed.add(line)
+            out(line)
 
     if harness_problem is not None:
         out(harness_problem)
